@@ -312,6 +312,17 @@ def _containment_rule(index, rep):
                 pushed.append((n, n.value))
         if not pushed:
             raise AnalysisError("R18.4: %s: no push-up of lineages to the tail node found" % q)
+        # at the root of the containing tree the remaining lineages coalesce without a time limit (period=None)
+        for iff in walk_no_nested(f.node):
+            if isinstance(iff, ast.If):
+                t_, tb_, fb_ = pos_if(iff)
+                cp_ = compare_parts(t_)
+                if cp_ and cp_[1] in ("Is", "IsNot") and is_none(cp_[2]) and norm(cp_[0]).endswith("head_node.parent_node"):
+                    rootb = tb_ if cp_[1] == "Is" else fb_
+                    for c in [c for st in rootb for c in ast.walk(st) if isinstance(c, ast.Call) and call_name(c) == "coalesce_nodes"]:
+                        pk = get_kwarg(c, "period")
+                        rep.check(pk is not None and is_none(pk), "R18.4", q, "root lineages coalesced with period=%s" % (norm(pk) if pk is not None else None), fn_where(f, c), "%s: at the root, coalesce_nodes runs with period=None" % f.name,
+                                  "%s coalesces the lineages that reach the ROOT of the containing tree with period=%s: the process is cut off at the root edge's length, the lineages that have not met by then are dropped and the gene tree lacks leaves (one leaf per gene taxon is no longer guaranteed)" % (q, norm(pk) if pk is not None else None))
         for site, x in pushed:
             if not isinstance(x, ast.Name):
                 rep.check(False, "R18.4", q, "push-up of non-local value: " + norm(x)[:50], fn_where(f, site), "", "%s hands `%s` up to the parent population without it being the result of coalesce_nodes for this branch" % (q, norm(x)[:50]))
@@ -420,3 +431,36 @@ def _input_purity_rule(index, rep):
                   "%s does not write to %s (names reaching it without decoration: %s)" % (f.name, "/".join(trees), sorted(tainted)),
                   "%s stores to the tree it was given (`%s`) although decoration of the input was not requested: the attribute stays on the caller's tree, so a second simulation on the same species tree starts from the first one's leftovers (e.g. gene nodes accumulate and the gene tree gets 8, 12, ... leaves for 4 taxa)" % (f.qualname, norm_stmt(bad[0].stmt)[:70] if bad else ""))
     rep.floor("R18.6", "simulators taking a containing tree", 2, n)
+    # parameter dictionaries handed to rand_trees stay the caller's: they are copied before the rng is put into them
+    rt = index.function("dendropy.simulate.treesim.rand_trees")
+    tainted = {p_ for p_ in rt.params if "kwargs" in p_}
+    changed = True
+    while changed:
+        changed = False
+        for a in walk_no_nested(rt.node):
+            tg = val = None
+            if isinstance(a, ast.Assign):
+                tg, val = a.targets, a.value
+            elif isinstance(a, ast.For):
+                tg, val = [a.target], a.iter
+            if tg is None or (isinstance(val, ast.Call) and isinstance(val.func, ast.Name) and val.func.id in ("dict", "list", "set") ) or (isinstance(val, ast.Call) and norm(val.func) in ("copy.copy", "copy.deepcopy")) or isinstance(val, ast.Dict):
+                continue
+            if isinstance(val, ast.Call):
+                continue        # the result of calling a user function is the function's to hand out
+            if names_in(val) & tainted:
+                for t in tg:
+                    for nm in ast.walk(t):
+                        if isinstance(nm, ast.Name) and isinstance(nm.ctx, ast.Store) and nm.id not in tainted:
+                            tainted.add(nm.id)
+                            changed = True
+    cfg = cfg_of(rt)
+    for x in cfg.nodes:
+        for c in node_calls(x):
+            if isinstance(c.func, ast.Attribute) and c.func.attr in MUTATORS | {"setdefault"} and isinstance(c.func.value, ast.Name) and c.func.value.id in tainted:
+                # is the name still the caller's object here?  (a `name = dict(name)` before this point makes it a private copy)
+                copies = [d for d in cfg.nodes if d.kind == "stmt" and isinstance(d.ast, ast.Assign) and norm(d.ast.targets[0]) == c.func.value.id and isinstance(d.ast.value, ast.Call)
+                          and isinstance(d.ast.value.func, ast.Name) and d.ast.value.func.id in ("dict", "list")]
+                ids = {d.id for d in copies}
+                private = bool(copies) and cfg.dominated_by(x, lambda y: y.id in ids, follow_exc=False)
+                rep.check(private, "R18.6", rt.qualname, "caller's parameter dictionary mutated: %s" % norm(c)[:50], fn_where(rt, c), "rand_trees puts the rng into a private copy of the parameter dictionary",
+                          "rand_trees calls `%s` on a dictionary that is still the caller's own: the generator of this call stays in the caller's dictionary, so a second call with the same parameter dictionaries silently reuses the first call's already-advanced generator and equal generator states no longer give equal trees" % norm(c)[:60])
